@@ -14,7 +14,7 @@ ASSUMPTIONS = [
 ]
 OUTSIDE = ["sequences longer than the bound; in the thorough tier positions other than the block boundaries are concrete letters", "mixed-case colour names"]
 NMAX = {"quick": 12, "thorough": 14}
-LONG = {"quick": [], "thorough": [51, 60, 101]}
+LONG = {"quick": [51, 101], "thorough": [50, 51, 52, 60, 100, 101, 151]}
 ITEM_TIMEOUT = {"quick": 600, "thorough": 2400}
 COL = T.HTML_COLOURS
 BADCOL = ["pink", "", "redd", 3]
@@ -65,7 +65,7 @@ def run_item(item):
     pv, pal = sym_palette(I)
     if item["kind"] == "render":
         if item.get("sparse"):
-            symbolic_at = {0, 9, 10, 49, 50, 51, 99, 100}
+            symbolic_at = {0, 9, 10, 49, 50, 51, 99, 100, 149, 150}
             vs_all, chars = [], []
             for i in range(N):
                 if i in symbolic_at:
@@ -105,7 +105,10 @@ def run_item(item):
             try:
                 parts = I.str_eq_parts(val, want) if ok else [False]
             except Unsupported as ex:
-                res["inconclusive"].append("ENCODING-GAP %s: %s" % (item["name"], ex))
+                # the two strings could not even be aligned piece by piece: most likely they differ; the witness is replayed natively
+                res["obligations"] += 1; res["sat"] += 1
+                c = cex(m); c["label"] = "rendered string has a different structure than the expected markup (%s)" % ex
+                res["candidates"].append(c)
                 return
             for k_, eq in enumerate(parts):
                 t_ = I.truth(eq)
@@ -160,6 +163,10 @@ def run_item(item):
 
     def on_raise(ob, exc, m):
         ob.prove(z3.Not(acceptable), "rejected => the dictionary is not a total mapping onto the 17 colour names", cex)
+        if "sp" not in holder:
+            res["obligations"] += 1; res["sat"] += 1
+            c = cex(m); c["label"] = "construction raised %s" % type(exc).__name__; res["candidates"].append(c)
+            return
         t = same_palette(I, getattr(exc, "_symx_snapshot", None) if hasattr(exc, "_symx_snapshot") else holder["sp"].SeqObj.aminoAcidColorMap, pal)
         ob.prove(zbool(t) if not isinstance(t, bool) else t, "a rejected dictionary leaves the palette unchanged", cex)
 
